@@ -26,7 +26,7 @@ class RunRecord:
                  "task_before", "task_after", "steps", "digest", "sched_digest", "counters", "nevents", "switches",
                  "deadlock", "step_limit", "thread_crashes", "events", "optimizer", "config_obj", "task_obj",
                  "result_dump", "raised_injected", "decisions_len", "nthreads", "init_positions_by_ctx", "ctx_firsts",
-                 "base_init")
+                 "base_init", "via", "extra_results")
 
     def __init__(self):
         for s in self.__slots__:
@@ -43,10 +43,12 @@ def exc_origin(e: BaseException):
         if "/pyvolutionary/" in fn:
             last = (fn.split("/pyvolutionary/", 1)[1], tb.tb_frame.f_code.co_name, tb.tb_lineno)
         tb = tb.tb_next
-    # an exception that crossed a simulated process boundary lost its traceback there
-    if o is not None and (last is None or last[1] in ("get_pool_results", "result")):
+    # an exception that crossed a simulated process boundary lost its traceback there: its origin is the innermost
+    # library frame recorded in the worker (whatever re-raised it on this side - get_pool_results, HyperTuner.execute,
+    # Multitask.__parallelize__ - is not where it failed)
+    if o is not None:
         return o
-    return last if last is not None else o
+    return last
 
 
 _VERIF_ROOT = os.path.dirname(os.path.dirname(os.path.abspath(__file__)))
@@ -57,7 +59,7 @@ def raise_if_harness_fault(e: BaseException):
     the library (injected faults and the simulator's budget / deadlock signals excepted)."""
     if isinstance(e, (faults_mod.InjectedObjectiveFault, kernel.SimStepLimit, kernel.SimDeadlock)):
         return
-    if "injected failure of objective" in str(e) or type(e).__name__ == "BrokenProcessPool":
+    if faults_mod.is_injected(e) or type(e).__name__ == "BrokenProcessPool":
         return
     if getattr(e, "_sim_origin", None) is not None:
         return          # raised by library code inside a simulated worker process (its traceback stayed there)
@@ -115,9 +117,19 @@ def new_sim(desc, keep_events=0, event_kinds=None):
     return sim
 
 
+def _freeze(x):
+    try:
+        return tuple(_freeze(e) if isinstance(e, (list, tuple)) or hasattr(e, "tolist") and getattr(e, "ndim", 0) else
+                     (float(e).hex() if isinstance(e, float) or hasattr(e, "dtype") and e.dtype.kind == "f" else int(e))
+                     for e in (x.tolist() if hasattr(x, "tolist") and getattr(x, "ndim", 0) else x))
+    except Exception:
+        return repr(x)
+
+
 def install_observers(sim, rec, snapshots=True):
     """Wire the generic observers of engine G into ``sim.obs``."""
     rec.snapshots = []
+    rec.init_positions_by_ctx = {}
     rec.obj_calls = 0
     rec.obj_violations = []
     rec.obj_ctx_kinds = {}
@@ -144,6 +156,11 @@ def install_observers(sim, rec, snapshots=True):
         if t is not None and not t.is_main:
             kind = "process" if t.ctx.parent is not None else "thread"
         rec.obj_ctx_kinds[kind] = rec.obj_ctx_kinds.get(kind, 0) + 1
+        if kind == "process" and rec.steps == 0 and not rec.snapshots:
+            # initial population built by worker processes: which process evaluated which point, in its own order
+            seq = rec.init_positions_by_ctx.setdefault((t.ctx.pid, t.ctx.label), [])
+            if len(seq) < 64:
+                seq.append(_freeze(x))
         key = id(tdesc)
         sl = slots_cache.get(key)
         if sl is None:
@@ -229,7 +246,9 @@ def run_scenario(desc, keep_events=0, event_kinds=None, pre_ops=None) -> RunReco
     rec = RunRecord()
     rec.desc = desc
     cls = install.OPTIMIZERS[desc["optimizer"]]
-    task = tasks.build_task(desc["task"])
+    late = bool(desc["task"].get("late") or desc["task"]["objective"].get("user_state"))
+    # (a task whose class is defined late / whose objective depends on the user's module state is built after the history)
+    task = tasks.build_task(dict(desc["task"], late=False)) if not late else None
     cfg = make_config(desc["optimizer"], desc["config"])
     opt = cls(cfg, debug=True) if desc.get("debug") else cls(cfg)
     rec.optimizer, rec.config_obj, rec.task_obj = opt, cfg, task
@@ -239,18 +258,23 @@ def run_scenario(desc, keep_events=0, event_kinds=None, pre_ops=None) -> RunReco
     sim = new_sim(desc, keep_events, event_kinds)
     install_observers(sim, rec)
     rec.cfg_before = dump_model(cfg)
-    rec.task_before = dump_task(task)
+    rec.task_before = dump_task(task) if task is not None else None
     out = io.StringIO()
     kernel.ACTIVE = sim
     sim.adopt_main()
     try:
         with contextlib.redirect_stdout(out):
             # instance / process history: earlier optimize() calls (their outcome is not the subject)
+            if desc.get("history_config") and desc.get("history"):
+                opt.set_config_parameters(copy.deepcopy(desc["history_config"]))
+                sim.count("history_other_configuration")
             for h in desc.get("history") or []:
                 try:
                     ht = tasks.build_task(h["task"])
                     ho = opt if h.get("instance", "same") == "same" else cls(make_config(desc["optimizer"], desc["config"]))
-                    hres = ho.optimize(ht, mode=h.get("mode", "serial"))
+                    hres = ho.optimize(ht, mode=h.get("mode", "serial"), workers=h.get("workers"))
+                    if h.get("mode", "serial") != "serial":
+                        sim.count("history_runs_pooled")
                     sim.count("history_runs_completed")
                     if desc.get("history_utils"):
                         # the user plots the earlier run's trends, then drops that result
@@ -265,6 +289,14 @@ def run_scenario(desc, keep_events=0, event_kinds=None, pre_ops=None) -> RunReco
                     raise
                 except BaseException:
                     sim.count("history_runs_failed")
+            if desc.get("history_config") and desc.get("history"):
+                # back to the scenario's configuration, the way a tuner does it
+                opt.set_config_parameters(copy.deepcopy(desc["config"]))
+            if task is None:
+                task = tasks.build_task(desc["task"])
+                rec.task_obj = task
+            elif desc["task"]["objective"].get("user_state") is None:
+                tasks.USER_STATE["offset"] = 0.0
             rec.cfg_before = dump_model(cfg)
             rec.task_before = dump_task(task)
             sim.obs["observing"] = True
@@ -275,7 +307,35 @@ def run_scenario(desc, keep_events=0, event_kinds=None, pre_ops=None) -> RunReco
                     kw["mode"] = mode
                 if desc.get("workers") is not None:
                     kw["workers"] = desc["workers"]
-                rec.result = opt.optimize(task, **kw)
+                via = desc.get("via")
+                rec.via = via
+                if via == "hypertuner":
+                    # the result is obtained through the tuning utility: execute() over a one-point grid (exactly the
+                    # scenario's configuration), then resolve() - whose OptimizationResult is the observed one
+                    import pyvolutionary as _pv
+                    sim.obs["observing"] = False
+                    sim.obs.setdefault("cpu_count", 4)
+                    tuner = _pv.HyperTuner(opt, {k: [copy.deepcopy(v)] for k, v in desc["config"].items()})
+                    tuner.execute(task, n_trials=desc.get("via_trials", 1), n_jobs=2, mode=mode or "serial",
+                                  n_workers=desc.get("workers") or 2)
+                    sim.count("via_hypertuner_execute")
+                    sim.obs["observing"] = True
+                    rec.result = tuner.resolve(mode=mode or "serial", n_workers=desc.get("workers"))
+                elif via == "multitask":
+                    # the results are obtained through the multitask utility (trials run in worker processes on copies
+                    # of the optimizer); one of the trials' OptimizationResults is the observed one
+                    import pyvolutionary as _pv
+                    sim.obs.setdefault("cpu_count", 4)
+                    mt = _pv.Multitask(algorithms=(opt,), tasks=(task,), modes=(mode or "serial",),
+                                       n_workers=desc.get("workers"))
+                    mt.execute(n_trials=desc.get("via_trials", 2), n_jobs=2)
+                    sim.count("via_multitask_execute")
+                    cells = [c for c in mt._df2[0].iloc[:, 0]]
+                    rec.extra_results = [c["solution"] for c in cells]
+                    rec.result = rec.extra_results[desc.get("via_pick", 0) % len(rec.extra_results)]
+                    rec.steps = len(rec.result.rates)       # the cycles ran in a worker process, on a copy
+                else:
+                    rec.result = opt.optimize(task, **kw)
             except kernel.SimAbort:
                 raise
             except BaseException as e:
@@ -284,14 +344,13 @@ def run_scenario(desc, keep_events=0, event_kinds=None, pre_ops=None) -> RunReco
                 rec.exc_type = type(e).__name__
                 rec.exc_msg = str(e)[:300]
                 rec.exc_origin = exc_origin(e)
-                rec.raised_injected = isinstance(e, faults_mod.InjectedObjectiveFault) or \
-                    "injected failure of objective" in str(e)
+                rec.raised_injected = faults_mod.is_injected(e)
     finally:
         try:
             sim.teardown()
         finally:
             kernel.ACTIVE = None
     rec.cfg_after = dump_model(cfg)
-    rec.task_after = dump_task(task)
+    rec.task_after = dump_task(task) if task is not None else None
     finish_record(sim, rec)
     return rec
